@@ -55,6 +55,8 @@ def observe(part, prop, scn, cfg, aux):
     if prop == "column_pos":
         _, cd = slice_dims(scn)
         return _labels_to_pos(cd, list(part.column_labels), cfg["cols"], aux.get("csubs"))
+    if prop == "payload_order":
+        return [x if str(x).startswith("ins_") else int(x) for x in to_py(part.payload_order)]
     if prop in ("row_order_signed", "column_order_signed"):
         return getattr(part, prop[:-7])()
     if prop in ("row_order_bogus", "column_order_bogus"):
@@ -127,7 +129,13 @@ def replay(job, rec):
     base_tags = {"rows": kind_name(rd), "cols": kind_name(cd), "nd": len(scn["dims"]),
                  "ins_rows": any(r < 0 for r in aux.get("rows", ())),
                  "ins_cols": any(c < 0 for c in aux.get("cols", ())),
+                 "has_diff_rows": any(aux.get("rdiff", ())),
+                 "has_diff_cols": any(aux.get("cdiff", ())),
                  "vc": bool(scn.get("valid_counts"))}
+    for side, key in (("rows", "row_sort"), ("cols", "col_sort")):
+        o = cfg[side]["order"]
+        if o["type"] not in ("payload", "explicit"):
+            base_tags[key] = "%s:%s" % (o["type"], o.get("measure") or o.get("marginal") or "")
     mism = []
     evals = 0
     feats = features_of(rec, scn, aux)
@@ -226,6 +234,45 @@ def replay(job, rec):
                             (prop, ",".join(map(str, path)), k, o, x),
                             {"partition": k, "observed": to_py(obs), "expected": e},
                             tags=dict(base_tags, prop=prop, reread=True)))
+        # third pass: a fresh Cube read in reverse order, so that every property is also
+        # computed *after* the ones that followed it in the first pass (a computation that
+        # disturbs state another one starts from is order-dependent on first use)
+        if not mism and not job.get("single_pass"):
+            import copy
+            try:
+                cube2 = Cube(copy.deepcopy(resp), population=scn.get("population"),
+                             mask_size=scn["min_base"], transforms=copy.deepcopy(xf))
+                parts2 = cube2.partitions
+            except Exception:  # noqa
+                parts2 = ()
+            for k, (part, exp) in reversed(list(enumerate(zip(parts2, rec["parts"])))):
+                aux = auxs[k] if k < len(auxs) else {}
+                for prop in reversed(list(exp)):
+                    e = exp[prop]
+                    if prop in skip or (only and prop not in only):
+                        continue
+                    if prop in YPROP_MEASURE and YPROP_MEASURE[prop] not in scn.get("ymeasures", ()):
+                        continue
+                    try:
+                        obs = observe(part, prop, scn, cfg, aux)
+                    except Exception as ex:  # noqa
+                        mism.append(Mismatch(
+                            prop_id, None,
+                            "%s raised %r when read in reverse order on a fresh cube "
+                            "(partition %d)" % (prop, ex, k), {"partition": k},
+                            tags=dict(base_tags, prop=prop, raises=type(ex).__name__,
+                                      reverse_fresh=True)))
+                        continue
+                    errs = compare(obs, e)
+                    if errs:
+                        path, o, x = errs[0]
+                        mism.append(Mismatch(
+                            prop_id, None,
+                            "%s[%s] partition %d differs when the properties are read in "
+                            "reverse order on a fresh cube: library %r, spec %r" %
+                            (prop, ",".join(map(str, path)), k, o, x),
+                            {"partition": k, "observed": to_py(obs), "expected": e},
+                            tags=dict(base_tags, prop=prop, reverse_fresh=True)))
     return {"evaluations": evals, "mismatches": mism,
             "nontrivial": "empty_data" not in feats or bool(job.get("count_empty_nontrivial")),
             "features": feats}
